@@ -70,28 +70,28 @@ def re_models(record=None):
 
 
 def _match_obj(m_):
-    return Obj("Match", "match", (), {"__bool__": True, "groups": (m_.group(0),) + tuple(m_.groups()), "groupdict": dict(m_.groupdict())})
+    return Obj("Match", "match", (), {"__bool__": True, "_groups": (m_.group(0),) + tuple(m_.groups()), "_groupdict": dict(m_.groupdict())})
 
 
 def match_method_models():
     def group(ev, recv, args, kw, node):
-        gs = recv.attrs["groups"]
+        gs = recv.attrs["_groups"]
         if not args:
             return gs[0]
         vals = []
         for a in args:
             if isinstance(a, int) and 0 <= a < len(gs):
                 vals.append(gs[a])
-            elif isinstance(a, str) and a in recv.attrs["groupdict"]:
-                vals.append(recv.attrs["groupdict"][a])
+            elif isinstance(a, str) and a in recv.attrs["_groupdict"]:
+                vals.append(recv.attrs["_groupdict"][a])
             else:
                 from ..absint import Raised
 
                 raise Raised("IndexError", node)
         return vals[0] if len(vals) == 1 else tuple(vals)
 
-    return {("Match", "group"): group, ("Match", "groups"): lambda ev, r, a, k, n: tuple(r.attrs["groups"][1:]),
-            ("Match", "groupdict"): lambda ev, r, a, k, n: dict(r.attrs["groupdict"]), ("Match", "__getitem__"): group}
+    return {("Match", "group"): group, ("Match", "groups"): lambda ev, r, a, k, n: tuple(r.attrs["_groups"][1:]),
+            ("Match", "groupdict"): lambda ev, r, a, k, n: dict(r.attrs["_groupdict"]), ("Match", "__getitem__"): group}
 
 
 def sig_obj_from(out):
